@@ -4,6 +4,7 @@ import (
 	"fmt"
 	"math/rand/v2"
 	"path/filepath"
+	"runtime/debug"
 	"testing"
 
 	"github.com/cockroachdb/pebble/sstable"
@@ -113,6 +114,10 @@ func TestC27(t *testing.T) {
 	if out == "" {
 		t.Skip("VERIF_OUT not set")
 	}
+	// unchecked corrupted bytes can send the block decoders' pointer arithmetic
+	// off the buffer: make such faults panics (recorded, rejected by the spec)
+	// instead of killing the driver
+	defer debug.SetPanicOnFault(debug.SetPanicOnFault(true))
 	seed := uint64(envInt("VERIF_SEED", 1))
 	p, s := envInt("VERIF_P", 3), envInt("VERIF_S", 2)
 	nt := envInt("VERIF_TABLES", 1)
